@@ -707,3 +707,110 @@ Proof.
       |cbn [gget Nat.eqb app]; reflexivity|norm_app2|norm_app2|exact Npre2|exact Npost2].
     destruct K, d, w1; discriminate.
 Qed.
+
+(* ====================================================================== *)
+(* "k": "v" / 'k' : 'v'  (dict / JSON style): patterns 2[6] then 2[7]        *)
+(* ====================================================================== *)
+Definition shapeR_json (kcs : list cset) : asub :=
+  [AOne cs_quotes; AKey kcs; ARun dig_cs false; AOne cs_quotes; ARun py_space false; AOne [(58, 58)]; ARun py_space false;
+   AOne cs_quotes; ARun cs_quoted false; AOne cs_quotes].
+Lemma checks_json : forallb (fun k => check_ex k (shape_of (shapeR_json (kcs_of k))) [6%nat; 7%nat] &&
+    check_self k (shapeR_json (kcs_of k)) 6 && check_self k (shapeR_json (kcs_of k)) 7) gen_keys = true.
+Proof. vm_cast_no_check (eq_refl true). Qed.
+
+Definition msg_json (pre : str) (q1 : N) (K d : str) (q2 : N) (w1 w2 : str) (q3 : N) (x : str) (q4 : N) (post : str) : str :=
+  pre ++ q1 :: K ++ d ++ q2 :: w1 ++ 58 :: w2 ++ q3 :: x ++ q4 :: post.
+
+Lemma whole_json_step k K d q1 q2 w1 w2 q3 q4 v mask pre post :
+  In k gen_keys -> casing_of k K -> forallb ascii_digit d = true ->
+  is_quote q1 = true -> is_quote q2 = true -> is_quote q3 = true -> is_quote q4 = true ->
+  forallb is_space w1 = true -> forallb is_space w2 = true ->
+  forallb quoted_char v = true -> forallb quoted_char mask = true ->
+  forallb ctx_char pre = true -> forallb ctx_char post = true ->
+  only_at gen_ci_table k (msg_json pre q1 K d q2 w1 w2 q3 v q4 post) [(length pre + 1)%nat] = true ->
+  only_at gen_ci_table k (msg_json pre q1 K d q2 w1 w2 q3 mask q4 post) [(length pre + 1)%nat] = true ->
+  others_absent k (msg_json pre q1 K d q2 w1 w2 q3 v q4 post) = true ->
+  others_absent k (msg_json pre q1 K d q2 w1 w2 q3 mask q4 post) = true ->
+  mask_password (msg_json pre q1 K d q2 w1 w2 q3 v q4 post) mask = msg_json pre q1 K d q2 w1 w2 q3 mask q4 post.
+Proof.
+  intros Hin Hcase Hd Hq1 Hq2 Hq3 Hq4 Hw1 Hw2 Hv Hmk Hpre Hpost Hov Hom Hav Ham.
+  destruct (gen_key_ok k Hin) as [Hne Hk].
+  pose proof (casing_ok_of k K Hk Hcase) as HK. pose proof (digits_in d Hd) as Hd'.
+  pose proof (spaces_in _ Hw1) as Hw1'. pose proof (spaces_in _ Hw2) as Hw2'.
+  pose proof (quote_in _ Hq1) as Hq1'. pose proof (quote_in _ Hq2) as Hq2'.
+  pose proof (quote_in _ Hq3) as Hq3'. pose proof (quote_in _ Hq4) as Hq4'.
+  pose proof (all_in_impl _ _ _ quoted_in Hv) as Hv'. pose proof (all_in_impl _ _ _ quoted_in Hmk) as Hmk'.
+  pose proof (ctx_all _ Hpre) as Hpre'. pose proof (ctx_all _ Hpost) as Hpost'.
+  pose proof checks_json as Hch. rewrite forallb_forall in Hch. specialize (Hch k Hin).
+  apply andb_true_iff in Hch. destruct Hch as [Hch Hcs2]. apply andb_true_iff in Hch. destruct Hch as [Hco Hcs].
+  assert (Parts : forall x, all_in cs_quoted x = true ->
+            only_at gen_ci_table k (msg_json pre q1 K d q2 w1 w2 q3 x q4 post) [(length pre + 1)%nat] = true ->
+            let S := q1 :: K ++ d ++ q2 :: w1 ++ 58 :: w2 ++ q3 :: x ++ q4 :: post in
+            conc gen_ci_table k (shape_of (shapeR_json (kcs_of k))) (pre ++ S) /\
+            (forall a' b', pre = a' ++ b' -> b' <> [] -> conc gen_ci_table k (ARun ctx_cs true :: shapeR_json (kcs_of k) ++ [ARun ctx_cs false]) (b' ++ S)) /\
+            conc gen_ci_table k [ARun ctx_cs false] post).
+  { intros x Hx' Hox.
+    pose proof (conc_parts gen_ci_table k Hne ctx_cs false pre
+                  [(AOne cs_quotes, [q1]); (AKey (kcs_of k), K); (ARun dig_cs false, d); (AOne cs_quotes, [q2]);
+                   (ARun py_space false, w1); (AOne [(58, 58)], [58]); (ARun py_space false, w2); (AOne cs_quotes, [q3]);
+                   (ARun cs_quoted false, x); (AOne cs_quotes, [q4])]
+                  ctx_cs false post (msg_json pre q1 K d q2 w1 w2 q3 x q4 post)) as P.
+    cbn zeta in P. apply P; clear P.
+    - reflexivity.
+    - valid_segs Hne.
+    - intros a b E Hp0. pose proof (only_at_spec _ _ _ _ Hox a b E Hp0) as Hi. cbn [key_offsets fst snd is_key app].
+      clear - Hi. destruct Hi as [Hi|[]]. left. rewrite <- Hi. cbn [length]. lia. }
+  destruct (Parts v Hv' Hov) as (Cv & Cpre & Cpost). destruct (Parts mask Hmk' Hom) as (Cm & Cpre1 & _).
+  assert (Hrj : nth_error (pats k) 6 = Some (gen_tp2_6 k)) by reflexivity.
+  destruct (self_nomatch k _ 6 _ pre _ post Hin Hcs Hrj Cpre Cpost) as [Npre Npost].
+  assert (Hr2 : nth_error (pats k) 7 = Some (gen_tp2_7 k)) by reflexivity.
+  destruct (self_nomatch k _ 7 _ pre _ post Hin Hcs2 Hr2 Cpre1 Cpost) as [Npre2 Npost2].
+  unfold msg_json.
+  apply (whole_frame2 k 6 7 (gen_tp2_6 k) (t2 mask) (gen_tp2_7 k) (t2 mask) (shapeR_json (kcs_of k)) _ _ mask Hin ltac:(repeat constructor) eq_refl eq_refl Hco Cv Cm);
+    [| | |exact Hav|exact Ham].
+  3:{ replace (pre ++ q1 :: K ++ d ++ q2 :: w1 ++ 58 :: w2 ++ q3 :: v ++ q4 :: post)
+        with ((pre ++ [q1]) ++ K ++ (d ++ q2 :: w1 ++ 58 :: w2 ++ q3 :: v ++ q4 :: post)) by norm_app2.
+      apply (key_occurs k K _ _ Hk Hcase). }
+  - (* 2[6] rewrites the value *)
+    replace (pre ++ q1 :: K ++ d ++ q2 :: w1 ++ 58 :: w2 ++ q3 :: mask ++ q4 :: post)
+      with (pre ++ (q1 :: K ++ d ++ q2 :: w1 ++ 58 :: w2 ++ [q3]) ++ mask ++ [q4] ++ post) by norm_app2.
+    eapply (gm_sub_two_ctx gen_ci_table (gen_tp2_6 k) pre _ (q1 :: K ++ d ++ q2 :: w1 ++ 58 :: w2 ++ [q3]) v [q4] post mask);
+      [cbv [gen_tp2_6]; gm_go|norm_app2|norm_app2|discriminate|cbn [gget Nat.eqb app]; reflexivity|norm_app2
+      |cbn [gget Nat.eqb app]; reflexivity|norm_app2|norm_app2|exact Npre|exact Npost].
+  - (* 2[7] finds the mask in its place (empty prefix, no u) and rewrites it to itself *)
+    set (pfx := @nil N). set (u := @nil N).
+    assert (Hp' : all_in cs_quoted pfx = true) by reflexivity. assert (Hu' : all_in [(85, 85); (117, 117)] u = true) by reflexivity.
+    assert (Hul : (length u <= 1)%nat) by (cbn; repeat constructor).
+    set (h := [q1] ++ pfx ++ K ++ d ++ [q2] ++ w1 ++ [58] ++ w2 ++ u ++ [q3]).
+    assert (QD : exists g, match_at (gen_tp2_7 k) (h ++ mask ++ q4 :: post) (blen pre) = Some (blen (pre ++ h ++ mask ++ [q4]), g) /\
+              gget g 1 = Some (blen pre, blen (pre ++ h)) /\ gget g 2 = Some (blen (pre ++ h ++ mask), blen (pre ++ h ++ mask ++ [q4]))).
+    { cbv [gen_tp2_7].
+      eapply (quote_delimited_at cs_quotes) with (h0 := [q1] ++ pfx ++ K ++ d ++ [q2] ++ w1 ++ [58] ++ w2 ++ u) (q3 := q3).
+      - cbn [qcount]. rewrite (qcount_keyseq _ _ Hk). vm_compute. reflexivity.
+      - cbn [last_q]. rewrite last_q_keyseq by (right; exact I). vm_compute. reflexivity.
+      - vmr.
+      - vmr.
+      - replace (h ++ mask ++ q4 :: post) with (q1 :: pfx ++ K ++ d ++ q2 :: w1 ++ 58 :: w2 ++ u ++ q3 :: mask ++ q4 :: post)
+          by (unfold h; repeat rewrite <- app_assoc; reflexivity).
+        mt_go.
+      - unfold h. rewrite !countq_app.
+        rewrite (countq_one cs_quotes _ Hq1'), (countq_one cs_quotes _ Hq2'), (countq_one cs_quotes _ Hq3').
+        rewrite (countq_none cs_quotes _ _ Hp' ltac:(vmr)), (countq_casing _ _ Hk HK), (countq_none cs_quotes _ _ Hd' ltac:(vmr)).
+        rewrite (countq_none cs_quotes _ _ Hw1' ltac:(vmr)), (countq_none cs_quotes _ _ Hw2' ltac:(vmr)), (countq_none cs_quotes _ _ Hu' ltac:(vmr)).
+        reflexivity.
+      - unfold h. repeat rewrite <- app_assoc. reflexivity.
+      - exact Hq3'.
+      - exact Hmk'.
+      - exact Hq4'. }
+    destruct QD as (g & Hm & G1 & G2).
+    replace (pre ++ q1 :: K ++ d ++ q2 :: w1 ++ 58 :: w2 ++ q3 :: mask ++ q4 :: post) with (pre ++ (h ++ mask ++ [q4]) ++ post) at 1 by (unfold h, pfx, u; norm_app2).
+    replace (pre ++ q1 :: K ++ d ++ q2 :: w1 ++ 58 :: w2 ++ q3 :: mask ++ q4 :: post) with (pre ++ h ++ mask ++ [q4] ++ post) by (unfold h, pfx, u; norm_app2).
+    apply (two_group_ctx (gen_tp2_7 k) pre h mask [q4] post mask g).
+    + replace ((h ++ mask ++ [q4]) ++ post) with (h ++ mask ++ q4 :: post) by norm_app2. exact Hm.
+    + unfold h. discriminate.
+    + exact G1.
+    + exact G2.
+    + intros a' b' q E Hb. replace (b' ++ (h ++ mask ++ [q4]) ++ post) with (b' ++ q1 :: K ++ d ++ q2 :: w1 ++ 58 :: w2 ++ q3 :: mask ++ q4 :: post) by (unfold h, pfx, u; norm_app2).
+      apply (Npre2 a' b' q E Hb).
+    + exact Npost2.
+Qed.
